@@ -318,6 +318,7 @@ class JoinManager:
 
     aliases_by_path: dict[tuple[type, str], Any] = field(default_factory=dict)
     joined_tables: set[type] = field(default_factory=set)
+    joined_variables: dict[type, Any] = field(default_factory=dict)
 
     def add_path_join(self, dao_class: type, attribute_name: str, alias: Any) -> None:
         """
@@ -630,7 +631,12 @@ class EQLTranslator:
         both_attributes = isinstance(query.left, Attribute) and isinstance(
             query.right, Attribute
         )
-        return is_equality and both_attributes
+        # the join is made on the foreign keys of the two variables' own tables: one hop on each side
+        one_hop = both_attributes and not (
+            isinstance(query.left._child_, Attribute)
+            or isinstance(query.right._child_, Attribute)
+        )
+        return is_equality and one_hop
 
     def _handle_attribute_equality_join(self, query: Comparator) -> Optional[bool]:
         """
@@ -668,10 +674,11 @@ class EQLTranslator:
         if anchor_dao is None:
             raise MissingDAOError("Selected variable has no DAO class")
 
-        if left_dao is anchor_dao:
-            target_dao, target_fk, anchor_fk = right_dao, right_fk, left_fk
-        elif right_dao is anchor_dao:
-            target_dao, target_fk, anchor_fk = left_dao, left_fk, right_fk
+        selected = self.select_like.selected_variable
+        if left_leaf is selected:
+            target_dao, target_fk, anchor_fk, target_leaf = right_dao, right_fk, left_fk, right_leaf
+        elif right_leaf is selected:
+            target_dao, target_fk, anchor_fk, target_leaf = left_dao, left_fk, right_fk, left_leaf
         else:
             raise UnsupportedQueryTypeError(
                 "An attribute equality join needs the selected variable on one side."
@@ -684,10 +691,15 @@ class EQLTranslator:
 
         equality = target_fk == anchor_fk
         already_joined = self.join_manager.is_table_joined(target_dao)
+        if already_joined and self.join_manager.joined_variables[target_dao] is not target_leaf:
+            raise UnsupportedQueryTypeError(
+                f"Two variables of type {target_dao.__name__} cannot be joined to the selected variable."
+            )
         if not already_joined:
             onclause = true() if self.or_depth else equality
             self.sql_query = self.sql_query.join(target_dao, onclause=onclause)
             self.join_manager.add_table_join(target_dao)
+            self.join_manager.joined_variables[target_dao] = target_leaf
 
         return equality if already_joined or self.or_depth else True
 
